@@ -255,9 +255,10 @@ CHECKS = {
         "tests": [
             {"pkg": "clusterx", "run": "^TestC05_Cluster$", "quick": 160, "thorough": 8400, "shards": {"quick": 5, "thorough": 14}, "shrinktime": "20s"},
             {"pkg": "coordx", "run": "^TestC05_MetaFile$", "quick": 400, "thorough": 24000, "shards": {"quick": 4, "thorough": 16}, "shrinktime": "20s"},
+            {"pkg": "leaderx", "run": "^TestC05_TermDurable$", "quick": 1200, "thorough": 60000},
         ],
         "floors": {"election_triggered": 0.03, "killed_inside_store": 0.02},
-        "rule": "generated programs of 8-30 steps over a cluster of 3 or 5 real storage nodes (+0-1 spare) and the real coordinator ShardController, all in one process and connected by a harness-owned wire: client writes (put / conditional put / delete / delete-range, each with a unique marker record) and reads sent to the node the client believes to be leader (current, remembered or arbitrary), bursts of 2-4 concurrent operations, isolate / cut link / heal, graceful node restart, node stop/start (minority), 'node unavailable' notifications to the coordinator, coordinator restart from the stored metadata, holding a node's next NewTerm response, late re-delivery of any coordination request sent so far (duplicates, messages of superseded elections), node swap to the spare, settle pauses; WAL segments of 1 KiB..64 KiB so rollovers and truncations cross segments. At the end everything is healed and restarted, a fresh coordinator elects, a final write is issued and the ensemble catches up. Every message, metadata store and client invoke/return is recorded in one ordered history. Oracle (C05) over the recorded coordinator events: every NewTerm/BecomeLeader/AddFollower carries the term of the latest successful metadata store and terms sent never go down, also across coordinator restarts; per term at most one node answers BecomeLeader successfully; every installed leader is a member of the stored ensemble, a majority of that ensemble had answered NewTerm(T) before the request was sent, and its reported head is maximal among the responders in its follower map; a node never answers NewTerm for a term below one it answered before and its reported term never decreases, also across restarts. Non-trivial: as C01. Second generator (TestC05_MetaFile, coordinator crash points INSIDE a metadata write of the file provider): a history of cluster statuses with growing terms, 0-2 stores by earlier incarnations, 1-3 stores by a child process running the real provider under strace with SIGKILL injected just before its k-th system call on the status file (k generated; one locked OS thread so the enumeration is deterministic); a fresh provider must then refuse to start or read exactly the last acknowledged or the in-flight status (never 'no metadata', a lower term or a mix) and be able to store from the version it read. Non-trivial there: the child was killed between the start and the return of a Store.",
+        "rule": "generated programs of 8-30 steps over a cluster of 3 or 5 real storage nodes (+0-1 spare) and the real coordinator ShardController, all in one process and connected by a harness-owned wire: client writes (put / conditional put / delete / delete-range, each with a unique marker record) and reads sent to the node the client believes to be leader (current, remembered or arbitrary), bursts of 2-4 concurrent operations, isolate / cut link / heal, graceful node restart, node stop/start (minority), 'node unavailable' notifications to the coordinator, coordinator restart from the stored metadata, holding a node's next NewTerm response, late re-delivery of any coordination request sent so far (duplicates, messages of superseded elections), node swap to the spare, settle pauses; WAL segments of 1 KiB..64 KiB so rollovers and truncations cross segments. At the end everything is healed and restarted, a fresh coordinator elects, a final write is issued and the ensemble catches up. Every message, metadata store and client invoke/return is recorded in one ordered history. Oracle (C05) over the recorded coordinator events: every NewTerm/BecomeLeader/AddFollower carries the term of the latest successful metadata store and terms sent never go down, also across coordinator restarts; per term at most one node answers BecomeLeader successfully; every installed leader is a member of the stored ensemble, a majority of that ensemble had answered NewTerm(T) before the request was sent, and its reported head is maximal among the responders in its follower map; a node never answers NewTerm for a term below one it answered before and its reported term never decreases, also across restarts. Non-trivial: as C01. Second generator (TestC05_MetaFile, coordinator crash points INSIDE a metadata write of the file provider): a history of cluster statuses with growing terms, 0-2 stores by earlier incarnations, 1-3 stores by a child process running the real provider under strace with SIGKILL injected just before its k-th system call on the status file (k generated; one locked OS thread so the enumeration is deterministic); a fresh provider must then refuse to start or read exactly the last acknowledged or the in-flight status (never 'no metadata', a lower term or a mix) and be able to store from the version it read. Non-trivial there: the child was killed between the start and the return of a Store. Third generator (TestC05_TermDurable, leaderx): a real leader or follower controller goes through 1-6 NewTerm calls with growing terms, as leader optionally serving writes in between (unflushed memtable content); right after a drawn NewTerm answer the node's directories are copied byte for byte at an instant at which no file changes (what a process kill leaves behind - the database runs without a Pebble WAL) and a fresh controller opened over the copy must know the answered term and refuse any lower one.",
         "assumptions": ['coordinator crash points are restarts between steps (not inside a metadata write)'],
     },
     "C20": {
@@ -346,8 +347,9 @@ CHECKS = {
         "level": "fault_enumeration",
         "tests": [
             {"pkg": "leaderx", "run": "^TestC07_CrashReplay$", "quick": 1200, "thorough": 240000},
+            {"pkg": "leaderx", "run": "^TestC07_KillImage$", "quick": 2400, "thorough": 120000},
         ],
-        "floors": {"image_inside_run": 0.3},
+        "floors": {"image_inside_run": {"quick": 600, "thorough": 100000}, "log_trimmed_before_the_kill": {"quick": 60, "thorough": 3000}},
         "rule": "an RF=1 leader with 1-4 concurrent writers applies 2-14 generated rich requests; right after the k-th Pebble batch "
                 "commit (k drawn over all commits of the run; observed by wrapping WriteBatch.Commit) the harness takes a consistent "
                 "database image (KV.Snapshot = flush + Pebble checkpoint, i.e. the state a kill -9 can leave, because Pebble's own WAL "
@@ -355,7 +357,7 @@ CHECKS = {
                 "stored in the image <= last log offset; decoded dump(image) == in-order application of entries 0..c to an empty "
                 "database; a node restarted over (image, WAL copy) becomes leader, replays, and its dump equals the application of the "
                 "whole log with commit offset = last offset (version ids and modification counts make a skipped, repeated or "
-                "reordered entry visible). Non-trivial: the image lies strictly inside the run or >=2 writers were in flight.",
+                "reordered entry visible). Non-trivial: the image lies strictly inside the run or >=2 writers were in flight. Second generator (TestC07_KillImage): the physical image a process kill leaves behind - the database runs without a Pebble WAL, so it is the last flushed database state plus the Oxia log. An RF=1 leader whose log uses an injected clock: writes over several 1-4 KiB segments, clock jumps of 10-90 min, explicit trimming rounds (retention 1 h), new terms on the same node (which flush the database); at the end the node's directories are copied byte for byte at an instant at which no file changes and a fresh node is started over the copy: it must become leader and its database must equal the fold of every acknowledged entry (recorded before any trimming). Non-trivial there: the restarted node had to replay entries that were not in the flushed database.",
         "assumptions": ["crash points are Pebble-commit granular; crash points inside a Pebble flush/compaction are Pebble's atomicity (trusted)",
                         "WAL-level power-loss images are C10's domain"],
     },
